@@ -35,7 +35,7 @@ def flavour_batch():
             m.add_func('i' + t, '', (), local_get(0) + local_get(1) + memop(code, 0, off), export='f%d' % k)
             cases.append(Case('f%d' % k, 'i' + t, 'v', 1 if t in 'if' else 2, -1, '%s offset=%d' % (nm, off))); k += 1
     b = Batch(m.encode(), cases, inputsets)
-    b.impl_mem = 'ls_inst.m0'
+    b.impl_mem = 'ls_cur_inst->m0'
     b.compare_mem = True
     return b
 
@@ -90,7 +90,7 @@ def history_batch(mem, depth, budget):
     op_('i32.load8_u', 0); op_('i32.load8_s', PAGE - 1); op_('i32.load16_s', PAGE - 1); op_('i32.load', PAGE - 2); op_('i32.load', 3)
     op_('i64.load', PAGE - 4); op_('i64.load', 0); op_('i64.load32_s', 3); op_('f64.load', 7); op_('i32.load8_u', PAGE + 5); op_('i32.load', 20)
     b = Batch(m.encode(), cases, [('explicit', [])])
-    b.main = 'bfs'; b.ops = ops; b.bfs_depth = depth; b.bfs_budget = budget; b.impl_mem = 'ls_inst.m0'
+    b.main = 'bfs'; b.ops = ops; b.bfs_depth = depth; b.bfs_budget = budget; b.impl_mem = 'ls_cur_inst->m0'
     b.opnames = ['%s(%s)' % (cases[ci].desc, ','.join('%#x' % a for a in args)) for ci, args, fl in ops]
     return b
 
